@@ -16,12 +16,12 @@ import (
 
 func init() {
 	Registry["C06"] = Prop{
-		Patterns: []string{"./kv/memberlist"},
+		Patterns: []string{"./kv/memberlist", "./ring"},
 		Run:      runC06,
 		Thorough: thoroughC06,
 		Explanation: "Decides structural necessary conditions of 'a gossiping KV cluster converges and never crashes on bad input': (R1) malformed input is dropped before any state change: the update is enqueued / merged only when unmarshalling succeeded, the key is non-empty and the codec is known; every slice expression on the received buffer is dominated by a length check on that bound with no re-assignment of the buffer in between; merging requires a successful decode and type assertion; the store is written only when computing the new value succeeded; " +
 			"(R2) no explicit panic is reachable from the memberlist delegate's receive paths; (R3) every accepted change (error nil ∧ new version > 0) wakes the watchers and re-gossips exactly the merge's own change and version; pending key notifications are detached from the accumulator in the same critical section in which they are read; (R4) lock discipline: storeMu, watchersMu, notifMu, workersMu, messagesMu guard their fields and worker-channel sends happen under workersMu; " +
-			"(R5) delegate publication: delegateReady is set only after memberlist and the broadcast queues are assigned, and the delegate's data methods touch them only when delegateReady is true. NOT decided: convergence itself (liveness over all gossip schedules), the broadcast invalidation rule, absence of implicit runtime panics in decoders.",
+			"(R5) delegate publication: delegateReady is set only after memberlist and the broadcast queues are assigned, and the delegate's data methods touch them only when delegateReady is true. (R6) a queued broadcast is invalidated only by one for the same key with a version not older, after a loop over the old content that can refuse; (R7) the ring's Mergeable implementations accept an incoming entry by the same last-writer-wins table for local and gossiped merges (analysis shared with C03.R1). NOT decided: convergence itself (liveness over all gossip schedules), absence of implicit runtime panics in decoders.",
 	}
 }
 
@@ -31,6 +31,8 @@ func runC06(c *core.Ctx) {
 	c.Rule("R3", "accepted changes notify watchers and re-gossip the merge's own change; notifications detached atomically", 5)
 	c.Rule("R4", "lock discipline of the KV's shared maps", 5)
 	c.Rule("R5", "delegate publication order and readiness gate", 5)
+	c.Rule("R6", "broadcast invalidation: same key, version not older, superset loop before any 'true'", 2)
+	c.Rule("R7", "ring Mergeables accept an incoming entry by the same LWW table whatever the origin (local CAS or gossip)", 3)
 	pkg := c.Prog.Pkg("kv/memberlist")
 	if pkg == nil {
 		c.Miss("R1", "pkg=kv/memberlist", "not loaded")
@@ -41,6 +43,92 @@ func runC06(c *core.Ctx) {
 	c06Notify(c, pkg)
 	c06Locks(c, pkg)
 	c06Delegate(c, pkg)
+	c06Invalidates(c, pkg)
+	c06MergeOrigin(c)
+}
+
+// c06Invalidates (R6): a queued broadcast is dropped in favour of a newer one only when that one is for
+// the same key, carries a version at least as new and (content rule) a loop over the old broadcast's
+// content that can answer 'no' precedes every 'yes'.
+func c06Invalidates(c *core.Ctx, pkg *packages.Package) {
+	fn := an.FindFunc(pkg, "ringBroadcast.Invalidates")
+	if fn == nil {
+		c.Miss("R6", "func=ringBroadcast.Invalidates", "not found")
+		return
+	}
+	c.Analysed(fn.String())
+	g := fn.Graph()
+	var yes []an.Loc
+	var yesRet []*ast.ReturnStmt
+	for _, b := range g.Blocks {
+		if r := an.ReturnOf(b); r != nil && len(r.Results) == 1 && fn.Canon(r.Results[0]) != "false" {
+			yes = append(yes, g.Locate(r))
+			yesRet = append(yesRet, r)
+		}
+	}
+	if len(yes) == 0 {
+		c.Undec("R6", "func=Invalidates:shape", fn.Pos(), "no return that can answer true")
+		return
+	}
+	for _, r := range yesRet {
+		if fn.Canon(r.Results[0]) != "true" {
+			c.Undec("R6", "func=Invalidates:shape", r.Pos(), "a return of a computed value ("+fn.Canon(r.Results[0])+") is not handled by the table")
+			return
+		}
+	}
+	t := an.Table{G: g, From: g.EntryLoc(), MayOnly: true, Opts: an.ExecOpts{Unroll: 1},
+		Atoms: []an.Atom{{Name: "same", Values: []string{"T", "F"}}, {Name: "key", Values: []string{"T", "F"}}, {Name: "ver", Values: []string{"lt", "eq", "gt"}}},
+		Binder: &an.Binder{Fn: fn, Bool: map[string]string{"ok(p0)": "same", "ok(p0.(ringBroadcast))": "same"}, Eq: map[string]string{"recv.key|p0.key": "key", "p0.key|recv.key": "key"},
+			Cmp: map[string]string{"recv.version|p0.version": "ver"}},
+		Targets: yes,
+		Want: func(r an.Row, _ int) an.Tri {
+			if r["same"] == "F" || r["key"] == "F" || r["ver"] == "lt" {
+				return an.F
+			}
+			return an.U
+		}}
+	res := t.Run()
+	c.Check(res.OK(), "R6", "func=Invalidates:table", fn.Pos(), "answers true only for a ringBroadcast of the same key whose version is not older: "+res.Summary(), res.Rows)
+	// content rule: a loop over the old content, containing a 'false' answer, dominates every 'true'
+	okLoop := false
+	for _, rs := range rangeLoops(fn, "p0.content") {
+		hasNo := false
+		ast.Inspect(rs.Body, func(n ast.Node) bool {
+			if r, ok := n.(*ast.ReturnStmt); ok && len(r.Results) == 1 && fn.Canon(r.Results[0]) == "false" {
+				hasNo = true
+			}
+			return true
+		})
+		h, _, _ := g.LoopBlocks(rs)
+		dom := true
+		for _, y := range yes {
+			dom = dom && g.Dom(h, y.B) && !an.InNode(rs, y.B.Nodes[y.I])
+		}
+		if hasNo && dom {
+			okLoop = true
+		}
+	}
+	c.Check(okLoop, "R6", "func=Invalidates:content", fn.Pos(), "every 'true' answer is reached only after a loop over each name in the old broadcast's content that can answer 'false' (superset test)", 1)
+}
+
+// c06MergeOrigin (R7): whether an incoming entry replaces the stored one is decided by the same
+// last-writer-wins table for local and for gossiped merges (shared analysis with C03.R1, the origin flag
+// is a free atom there): a value accepted locally but refused by peers could never converge.
+func c06MergeOrigin(c *core.Ctx) {
+	if c.Prog.Pkg("ring") == nil {
+		c.Miss("R7", "pkg=ring", "not loaded")
+		return
+	}
+	fns := mergeFns(c, "R7")
+	for _, sp := range lwwSpec {
+		fn := fns[sp.Type]
+		if fn == nil {
+			c.Miss("R7", "type="+sp.Type, "no Mergeable implementation with that name in package ring")
+			continue
+		}
+		c.Analysed(fn.String())
+		analyseLWWLoop(c, fn, sp, lwwIDs{"R7", "", ""})
+	}
 }
 
 func c06Input(c *core.Ctx, pkg *packages.Package) {
